@@ -267,7 +267,7 @@ class Interrupt(BaseException):
 
 def make_context(recipe: dict, fault: Optional[dict]) -> dict:
     fn = {"double": (lambda x: x * 2), "square": (lambda x: x * x), "shift": (lambda x: x + 1)}[recipe["myfun"]]
-    ctx: dict[str, Any] = {"const": recipe["const"], "myfun": fn}
+    ctx: dict[str, Any] = {"const": recipe["const"], "myfun": fn, **world.user_context()}
     count = [0]
     at = fault["at"] if fault and fault.get("kind") == "user_exc" else None
 
@@ -289,6 +289,7 @@ def client_fn_call(spec: Any, data: Any, opts: dict, ctx: dict, drop: Any) -> An
     const = ctx["const"]  # noqa: F841
     myfun = ctx["myfun"]  # noqa: F841
     flaky = ctx["flaky"]  # noqa: F841
+    usr_center, usr_sq, usr_offset = ctx["usr_center"], ctx["usr_sq"], ctx["usr_offset"]  # noqa: F841
     if drop is not None:
         return model_matrix(spec, data, drop_rows=drop, **opts)
     return model_matrix(spec, data, **opts)
